@@ -147,6 +147,7 @@ class _ConvertVersionPassRequiresInline(ir.passes.InPlacePass):
             return ir.passes.PassResult(model, False)
 
         converted_model = ir.from_proto(converted_proto)
+        _restore_metadata(model.graph, converted_model.graph)
 
         # Recover the initializers in the converted model
         for input in converted_model.graph.inputs:
@@ -160,6 +161,53 @@ class _ConvertVersionPassRequiresInline(ir.passes.InPlacePass):
         # Return the converted graph to the original model to keep the pass in-place
         model.graph = converted_model.graph
         return ir.passes.PassResult(model, True)
+
+
+def _restore_metadata(original: ir.Graph, converted: ir.Graph) -> None:
+    """Re-attach what the ONNX C API converter drops: metadata_props and value doc strings.
+
+    Nodes and values are matched by name (nodes also by operator); whatever the C API
+    created or renamed is left as it is, and nothing it kept is overwritten.
+    """
+    for key, value in original.metadata_props.items():
+        converted.metadata_props.setdefault(key, value)
+    if not converted.doc_string:
+        converted.doc_string = original.doc_string
+
+    old_nodes: dict[str, ir.Node | None] = {}
+    old_values: dict[str, ir.Value] = {v.name: v for v in original.inputs if v.name}
+    for node in ir.traversal.RecursiveGraphIterator(original):
+        if node.name:
+            # a name used twice identifies no node
+            old_nodes[node.name] = None if node.name in old_nodes else node
+        for output in node.outputs:
+            if output.name:
+                old_values[output.name] = output
+
+    def restore_value(value: ir.Value) -> None:
+        old = old_values.get(value.name) if value.name else None
+        if old is None:
+            return
+        if not value.doc_string:
+            value.doc_string = old.doc_string
+        for key, item in old.metadata_props.items():
+            value.metadata_props.setdefault(key, item)
+
+    for graph_input in converted.inputs:
+        restore_value(graph_input)
+    for node in ir.traversal.RecursiveGraphIterator(converted):
+        for output in node.outputs:
+            restore_value(output)
+        old_node = old_nodes.get(node.name) if node.name else None
+        if (
+            old_node is not None
+            and old_node.op_type == node.op_type
+            and old_node.domain == node.domain
+        ):
+            if not node.doc_string:
+                node.doc_string = old_node.doc_string
+            for key, item in old_node.metadata_props.items():
+                node.metadata_props.setdefault(key, item)
 
 
 def convert_version(
